@@ -130,6 +130,8 @@ def execute(case: Case, prefix: t.Sequence[str] = (), bound: int = 0, reduce: bo
                 W.RUN.set(rid)
                 if case.coro_factory is not None:
                     return await case.coro_factory()
+                if case.collab.get('omit_pipeline_id'):
+                    return await chart.run(input_kwargs=given_inputs[rid], meta=given_meta[rid])
                 return await chart.run(pipeline_id=f'run{rid}', input_kwargs=given_inputs[rid], meta=given_meta[rid])
             tasks.append(loop.create_task(runner(), name=f'mc-run{rid}'))
         steps = 0
